@@ -489,6 +489,22 @@ void vf::run_case(Src &s, Ctx &c)
         if (!solveOnce(k))
             return;
     }
+    // epilogue (decoded last, so that saved cases - which end before it - keep their meaning): a solve with the whole budget, i.e. usually
+    // up to a solution, followed by a short continued solve. What a planner does on a continued solve *after* it has found a solution is
+    // otherwise almost never reached by the steps above, whose first solve is cut early.
+    if (s.chance(110))
+    {
+        c.count("history:epilogue(full solve, short continued solve)");
+        c.note(" => solve(k=%ld)", budget);
+        resumedSolve = true;
+        if (!solveOnce(budget))
+            return;
+        long k = 1 + (long)s.in(0, 60);
+        c.note(" -> solve(k=%ld)", k);
+        if (!solveOnce(k))
+            return;
+        steps = std::max(steps, 1);
+    }
     c.note("\n");
     c.nontrivial = steps > 0 || anyInteresting;
 #endif
